@@ -118,3 +118,25 @@ Theorem C03_rounded_rect_complete : forall (w h r : R) (segments : Z) (center : 
   (0 < r)%R -> (2 * r < w)%R -> (2 * r < h)%R -> (1 <= segments)%Z ->
   rounded_rect w h r segments center = Some pts -> complete (enumerate pts) /\ complete (rev (enumerate pts)).
 Proof. exact rounded_rect_caps_complete. Qed.
+
+(* ---- the geometric statement for fan-convex polygons (every strictly convex outline, every rounded rectangle) ----
+   the run returns exactly the fan from the last vertex, (a, p_i, p_{i+1}) for i = 0 .. n-3, and no point lies strictly
+   inside two of its triangles; with C03_complete_tiling and C03_complete_area (every polygon edge once, every diagonal
+   twice in opposite directions, all triangles wound like the polygon, areas adding up to the polygon's area) this is
+   "tiles exactly" for that class *)
+From SCAD Require Import Geom.Fan_tiling.
+Theorem C03_fan_run : forall sigma (p : list (@vtx R)), fanconv sigma p -> (3 <= length p)%nat ->
+  fst (run p) = fan_tris (last p dv) (removelast p) /\ triangulate p = flat_map idx3 (fan_tris (last p dv) (removelast p)).
+Proof. intros sigma p Hc Hn. split; [exact (fan_run sigma p Hc Hn)|exact (fan_indices sigma p Hc Hn)]. Qed.
+Theorem C03_fan_no_overlap : forall sigma (p : list (@vtx R)), fanconv sigma p -> (3 <= length p)%nat ->
+  forall i j (q : pt2 R), (i < j)%nat -> (j < length (fst (run p)))%nat ->
+    ~ (strictly_inside sigma (nth i (fst (run p)) (dv, dv, dv)) q /\ strictly_inside sigma (nth j (fst (run p)) (dv, dv, dv)) q).
+Proof. exact fan_no_overlap. Qed.
+
+(* ---- the weakest form: star-shaped from the last vertex with the vertices in angular order, whatever the reflex
+        corners, plus the reference winding -- e.g. the chamfer outline (two reflex corners) for 0 < oversize < size ---- *)
+From SCAD Require Import Geom.Chamfer_complete.
+Theorem C03_fan_complete : forall sigma (p : list (@vtx R)), fan sigma p -> ref_ccw p = sigma -> (3 <= length p)%nat -> complete p.
+Proof. exact fan_complete. Qed.
+Theorem C03_chamfer_complete : forall size oversize : R, (0 < oversize)%R -> (oversize < size)%R -> complete (enumerate (chamfer size oversize)).
+Proof. exact chamfer_cap_complete. Qed.
